@@ -26,6 +26,7 @@ from .values import (
     to_string,
     js_pow,
     array_index,
+    js_number,
     js_typeof,
 )
 from .errors import (
@@ -491,7 +492,7 @@ class VM:
         elif op == OpCode.SUB:
             b = self.stack.pop()
             a = self.stack.pop()
-            self.stack.append(to_number(a) - to_number(b))
+            self.stack.append(js_number(to_number(a) - to_number(b)))
 
         elif op == OpCode.MUL:
             b = self.stack.pop()
@@ -849,11 +850,11 @@ class VM:
         # Increment/Decrement
         elif op == OpCode.INC:
             a = self.stack.pop()
-            self.stack.append(to_number(a) + 1)
+            self.stack.append(js_number(to_number(a) + 1))
 
         elif op == OpCode.DEC:
             a = self.stack.pop()
-            self.stack.append(to_number(a) - 1)
+            self.stack.append(js_number(to_number(a) - 1))
 
         # Closures
         elif op == OpCode.MAKE_CLOSURE:
@@ -972,7 +973,7 @@ class VM:
         if isinstance(a, str) or isinstance(b, str):
             return to_string(a) + to_string(b)
         # Numeric addition
-        return to_number(a) + to_number(b)
+        return js_number(to_number(a) + to_number(b))
 
     def _to_int32(self, value: JSValue) -> int:
         """Convert to 32-bit signed integer."""
